@@ -207,6 +207,11 @@ class Gen:
             return [K("BOOL"), O("#", True), K("TRUE" if b else "FALSE", True)], ["bool", b]
         if kind in ("lit.string", "lit.wstring", "lit.string.typed"):
             chars = "".join(self.pick("abc XYZ019_-+*/(){}[];:.,!?<>=") for _ in range(r.randint(0, 8)))
+            if self.ok("lit.string.escape") and self.chance(0.25):
+                # escape sequences other than the quote itself: kept as written (decoding is not demanded)
+                self.atom("lit.string.escape")
+                k = r.randint(0, len(chars))
+                chars = chars[:k] + self.pick(["$$", "$N", "$T", "$0A", "$L", "$$$$"]) + chars[k:]
             if kind == "lit.wstring":
                 return [L('"%s"' % chars)], ["str", chars]
             if kind == "lit.string.typed":
